@@ -46,6 +46,19 @@ pub mod cmp {
     pub struct Rec(LTerm, Rec);
 
     #[compound]
+    pub struct Holder2(LTerm, Option<LTerm>);
+
+    #[compound]
+    pub struct Outer {
+        tag: LTerm,
+        leaf: Named,
+    }
+
+    pub fn named_from_lterm<U: User, E: Engine<U>>(inner: LTerm<U, E>) -> Named<U, E> {
+        Named { inner }
+    }
+
+    #[compound]
     pub struct Holder {
         item: Option<LTerm>,
         tag: LTerm,
@@ -113,6 +126,18 @@ impl<U: User, E: Engine<U>> Env<U, E> {
                 };
                 Upcast::into_super(Downcast::into_sub(cmp::Holder_compound::_InnerHolder { item, tag: self.enc(&fs[1]) }))
             }
+            T::Cmp(Tag::Holder2, fs) => {
+                let item: Option<LTerm<U, E>> = match &fs[1] {
+                    T::Cmp(Tag::OptSome, x) => Some(self.enc(&x[0])),
+                    T::Cmp(Tag::OptNone, _) => None,
+                    other => panic!("harness error: the second field of a Holder2 is OptSome(_) or OptNone, not {}", other),
+                };
+                Upcast::into_super(Downcast::into_sub(cmp::Holder2_compound::_InnerHolder2(self.enc(&fs[0]), item)))
+            }
+            T::Cmp(Tag::Outer, fs) => Upcast::into_super(Downcast::into_sub(cmp::Outer_compound::_InnerOuter {
+                tag: self.enc(&fs[0]),
+                leaf: cmp::named_from_lterm(self.enc(&fs[1])),
+            })),
             T::Cmp(tag, fs) => {
                 let f: Vec<LTerm<U, E>> = fs.iter().map(|x| self.enc(x)).collect();
                 match tag {
@@ -138,7 +163,7 @@ impl<U: User, E: Engine<U>> Env<U, E> {
                     ))),
                     Tag::Tuple => Upcast::into_super(Downcast::into_sub((f[0].clone(), f[1].clone()))),
                     Tag::Some => Into::<LTerm<U, E>>::into(Some(f[0].clone())),
-                    Tag::Holder | Tag::OptSome | Tag::OptNone => panic!("harness error: {} is only encodable inside a Holder", tag.name()),
+                    Tag::Holder | Tag::OptSome | Tag::OptNone | Tag::Holder2 | Tag::Outer => panic!("harness error: {} is only encodable inside a Holder", tag.name()),
                 }
             }
         }
@@ -214,6 +239,8 @@ impl<'a, U: User, E: Engine<U>> Dec<'a, U, E> {
             "Rec" => Tag::Rec,
             "" => Tag::Tuple,
             "Holder" => Tag::Holder,
+            "Holder2" => Tag::Holder2,
+            "Outer" => Tag::Outer,
             // an Option FIELD of a compound struct (a top-level Some(x) is x's own object and
             // never shows this name)
             "Some" => Tag::OptSome,
